@@ -16,6 +16,7 @@ mod text;
 mod logconc;
 mod stab;
 mod collector;
+mod cleanup;
 
 /// No single allocation above the limit: a reader that sizes a buffer from damaged bytes must not take the
 /// machine down; the request fails, Rust aborts, and the abort is reported with the case in flight (C09).
@@ -60,6 +61,7 @@ fn main() {
         "mani-cuts" => mani_run::cuts(&args[2..]),
         "stab-replay" => stab::main(&args[2..]),
         "collector-stress" => collector::main(&args[2..]),
+        "cleanup-replay" => cleanup::main(&args[2..]),
         "logconc-stress" => logconc::main(&args[2..]),
         "text-replay" => text::main(&args[2..]),
         "wire-replay" => wire::main(&args[2..]),
